@@ -48,7 +48,7 @@ def cover_sets(ctx, scope, rot):
     res = ctx.tlc_expect_ok(['system'], 'ConfigCover.tla', 'Cover_gen.cfg', workers=2, timeout=900,
                             extra_files={'Cover_gen.cfg': cfg})
     out = {}
-    for name in ('quick', 'cover', 'full', 'boundary_quick', 'boundary_all', 'sharedcu_quick', 'sharedcu_all', 'parallel_quick', 'parallel_all'):
+    for name in ('quick', 'cover', 'full', 'boundary_quick', 'boundary_all', 'sharedcu_quick', 'sharedcu_all', 'parallel_quick', 'parallel_all', 'twins_all'):
         path = os.path.join(res.dir, name + '.ndjson')
         if not os.path.exists(path):
             raise vlib.Infra('ConfigCover did not export %s' % name)
@@ -316,7 +316,7 @@ def judge(ctx, drv, results, verify=True, extra=(), prop='C01'):
         kind, detail = f
         again = res
         # a failure on the parallel engine (or of a host-concurrent sample) is a race: one observation is the evidence
-        if res['case']['w'] not in HOST_CONCURRENT and not res['case'].get('parallel'):
+        if res['case']['w'] not in HOST_CONCURRENT and not res['case'].get('parallel') and not res['case'].get('host_concurrent'):
             again = run_case(ctx, drv, 'confirm%d' % i, res['case'], extra, verify)
             f2 = classify(again, verify)
             if f2 is None or f2[0] != kind:
@@ -515,6 +515,12 @@ def design_level(ctx, thorough):
     r2 = ctx.tlc_expect_ok(['system'], 'MC_System.tla', 'MC_System_seq.cfg', workers=4, timeout=900)
     ctx.cov['system_model']['one_queue_three_gpus_states'] = r2.distinct
     ctx.log('System.tla: %d + %d distinct states, invariants and termination hold' % (r.distinct, r2.distinct))
+    # address spaces are per PID (two contexts with the same allocation history use the same virtual pages)
+    ra = ctx.tlc_expect_ok(['system'], 'AddrSpace.tla', 'MC_AddrSpace.cfg', workers=2, timeout=600)
+    da = ctx.tlc(['system'], 'AddrSpace.tla', 'MC_AddrSpace_nopid.cfg', workers=1, timeout=300, kind='demo')
+    if 'Isolation' not in da.violated:
+        raise vlib.Infra('AddrSpace.tla with a translation cache without PID no longer violates Isolation: %r' % da.violated)
+    ctx.cov['address_space_model'] = {'states': ra.distinct, 'cache_without_pid_violates': da.violated}
     checked = []
     for cfg, expect, rules, ngpu, nwg in DEVIATIONS:
         d = ctx.tlc(['system'], 'MC_System.tla', cfg, workers=1, timeout=600, kind='demo')
@@ -577,6 +583,8 @@ def run(ctx, selftest=False):
     # unified-device runs whose work-group count sits on a share boundary of distributeWGToGPUs (derived in Config.tla from
     # the CU count of each platform): the counts at which a GPU gets its last / exactly one / no work-group
     cases += sets['boundary_all'] if thorough else sets['boundary_quick']
+    # two instances of one workload in two contexts (PIDs) on one GPU with identical allocation histories (AddrSpace.tla)
+    cases += sets['twins_all']
     # emulation on the parallel engine: local-memory workloads with several work-groups, repeated
     cases += sets['parallel_all'] if thorough else sets['parallel_quick']
     cases += sampled_cases(ctx, 'acceptance', 150 if thorough else 14)
@@ -615,7 +623,8 @@ def run(ctx, selftest=False):
                     'multi_gpu_runs': sum(1 for r in results if r['case']['c']['n'] > 1),
                     'sampled_runs': sum(1 for r in results if r['case'].get('sampled')),
                     'unified_share_boundary_runs': sum(1 for r in results if r['case'].get('boundary')),
-                    'parallel_engine_runs': sum(1 for r in results if r['case'].get('parallel'))})
+                    'parallel_engine_runs': sum(1 for r in results if r['case'].get('parallel')),
+                    'two_instance_runs': sum(1 for r in results if r['case'].get('twins'))})
     ctx.assumptions += [
         'deciding oracle is each workload\'s own Verify() (host reference); fft\'s Verify compares two host copies and cannot fail, '
         'simpleconvolution/stencil2d use constant inputs, matrixmultiplication checks row 0 only (weak references are the workloads\' own)',
